@@ -121,6 +121,9 @@ pub struct HybCfg {
     /// No disk engine at all: the hybrid cache runs in in-memory mode (NoopEngine).
     #[serde(default)]
     pub noop_storage: bool,
+    /// Exact device capacity in bytes (0: derived from blocks x block size + tombstone log).
+    #[serde(default)]
+    pub device_capacity: usize,
 }
 
 impl HybCfg {
@@ -146,6 +149,7 @@ impl HybCfg {
             strict_recover: false,
             buffer_pool_size: 64 * 1024,
             noop_storage: false,
+            device_capacity: 0,
         }
     }
 
@@ -535,6 +539,9 @@ impl World {
     }
 
     pub fn device_capacity(&self) -> usize {
+        if self.cfg.device_capacity > 0 {
+            return self.cfg.device_capacity;
+        }
         let blocks = self.cfg.blocks * self.cfg.block_size;
         if self.cfg.tombstone {
             // The tombstone log takes ceil((capacity / PAGE) / 256) pages of the device.
@@ -999,6 +1006,34 @@ impl World {
         }
     }
 
+    /// Simulate a process crash: every task (flusher, reclaimer, pending IO) is dropped without being
+    /// run; the partition files stay exactly as they are. Then open again on the same directory.
+    pub fn crash_and_reopen(&mut self) -> Result<(), String> {
+        self.clients.clear();
+        self.gates.lock().unwrap().clear();
+        let cache = self.cache.take();
+        drop(cache);
+        sim::reset();
+        self.epoch += 1;
+        self.open()
+    }
+
+    pub fn graceful_restart(&mut self) {
+        self.quiesce();
+        if let Some(c) = self.cache.clone() {
+            let t = self.tick();
+            let ci = {
+                let mut h = self.hist.lock().unwrap();
+                h.calls.push((usize::MAX, "close", t, None));
+                h.calls.len() - 1
+            };
+            let fut = async move { ClientResult::Unit(c.close().await.map_err(|e| format!("{e}"))) };
+            self.spawn_client(usize::MAX, "close", None, None, Some(ci), fut);
+            self.quiesce();
+        }
+        self.reopen();
+    }
+
     fn reopen(&mut self) {
         self.drop_cache();
         self.epoch += 1;
@@ -1238,6 +1273,7 @@ impl World {
             }
             if let Some(t) = sim::ready().first() {
                 self.tick();
+                self.steps += 1;
                 sim::poll(*t);
                 self.reap_clients();
                 continue;
